@@ -71,6 +71,66 @@ def families(tier, rng):
                 yield _rand(rng, h, w, 0.25)
 
 
+def _mk(h, w, cells):
+    """cells: {(y, x): (arrow string, side)}"""
+    arrow = [[".."] * w for _ in range(h)]
+    side = [[0] * w for _ in range(h)]
+    for (y, x), (a, sd) in cells.items():
+        arrow[y][x] = a
+        side[y][x] = sd
+    return {"h": h, "w": w, "arrow": arrow, "side": side}
+
+
+def tier1_problems(tier, rng):
+    """program-capture tie: every single-clue layout (all four arrows with the numbers 0..2, the arrowless clue; gray / white /
+    black) of the boards with <= 6 cells in both orientations (1x1 .. 1x6, 6x1, 2x2, 2x3, 3x2: the single-row / single-column
+    boards included), a sample of the two-clue layouts of those boards, ~50 random larger and non-square boards (up to 7x7,
+    1xN, Nx1, 2xN, Nx2) with clue numbers at and beyond the boundaries (0, the line length, above it, negative, two digits),
+    and malformed problems: height <= 0 or width <= 0 (ValueError), trailing cells / rows of arrow or inside missing
+    (IndexError)"""
+    th = tier == "thorough"
+    small = [(1, 1), (1, 2), (2, 1), (1, 3), (3, 1), (2, 2), (1, 4), (4, 1), (1, 5), (5, 1), (2, 3), (3, 2), (1, 6), (6, 1)]
+    for (h, w) in small:
+        yield _mk(h, w, {})
+        one = list(_single(h, w))
+        for pb in (one if th or h * w <= 4 else L.sample(rng, one, 60)):
+            yield pb
+        if h * w >= 2:
+            clues = ["??"] + [d + str(n) for d in "^v<>" for n in (0, 1, 2)]
+            for _ in range(60 if th else 12):
+                c1, c2 = rng.sample([(y, x) for y in range(h) for x in range(w)], 2)
+                yield _mk(h, w, {c1: (rng.choice(clues), rng.choice([0, 1, 2])), c2: (rng.choice(clues), rng.choice([0, 1, 2]))})
+    far = [-2, -1, 0, 0, 1, 1, 2, 3, 4, 5, 6, 7, 9, 10, 12]
+    big = [(3, 3), (2, 4), (4, 2), (2, 5), (5, 2), (3, 4), (4, 3), (4, 4), (3, 6), (6, 3), (5, 5), (4, 6), (6, 5), (7, 7),
+           (1, 7), (7, 1), (1, 9), (8, 1), (2, 7), (7, 2), (3, 5), (5, 4), (6, 6), (2, 9), (9, 2)]
+    for (h, w) in big:
+        for p in [0.15, 0.5] * (3 if th else 1):
+            cells = {}
+            for y in range(h):
+                for x in range(w):
+                    if rng.random() < p:
+                        a = rng.choice(["??", "?x"] + [d + str(rng.choice(far)) for d in "^v<>"] * 2)
+                        cells[(y, x)] = (a, rng.choice([0, 1, 2]))
+            yield _mk(h, w, cells)
+    # every cell a clue: the corners / borders use is_inside[max(0, y - 1), max(0, x - 1)]
+    for (h, w) in [(2, 2), (3, 3), (2, 4), (4, 3)]:
+        for sd in (1, 2):
+            yield _mk(h, w, {(y, x): ("??", sd) for y in range(h) for x in range(w)})
+    # malformed: a non-positive dimension -> ValueError (Array2D.__init__ / int_array); both negative is out of scope
+    for (h, w) in [(0, 0), (0, 1), (1, 0), (0, 3), (3, 0), (-1, 2), (2, -1), (-1, 0), (0, -3), (-2, 3), (4, -2)]:
+        yield {"h": h, "w": w, "arrow": [[".."] * max(w, 0) for _ in range(max(h, 0))],
+               "side": [[0] * max(w, 0) for _ in range(max(h, 0))]}
+    # malformed: trailing cells / rows missing -> IndexError
+    for (h, w) in [(1, 1), (1, 3), (2, 2), (3, 2), (4, 4)]:
+        pb = _rand(rng, h, w, 0.4)
+        a, s = pb["arrow"], pb["side"]
+        yield {"h": h, "w": w, "arrow": a[:-1] + [a[-1][:-1]], "side": s[:-1] + [s[-1][:-1]]}
+        yield {"h": h, "w": w, "arrow": a[:-1], "side": s[:-1]}
+        yield {"h": h, "w": w, "arrow": a, "side": s[:-1] + [s[-1][:-1]]}
+        yield {"h": h, "w": w, "arrow": a, "side": s[:-1]}
+        yield {"h": h, "w": w, "arrow": [], "side": []}
+
+
 def classify(pb, what):
     """stable violation key (not a known finding any more: fixed by 557c2c1)"""
     if "raises" in what and (pb["h"] == 1 or pb["w"] == 1):
